@@ -228,8 +228,8 @@ RN_A = ["seeded state: open masters over Tree with consistent offsets (Inv_stack
 add("rn_eof_noclose_2", ["C04", "C06"], "rn.rs", "U", "read_next at (temporary) end of input with EOF closing disabled: nothing emitted, masters stay open", "2 masters, symbolic sizes/offsets",
     timeout_s=1200, mem_gb=10, stubs=IO_HASH, big_stack=True, assumes=RN_A)
 
-add("cut_b14_then_one_byte", ["C12", "C04", "C05"], "doc.rs", "S", "a 16-byte element exactly filling a capacity-16 buffer followed by ONE dangling byte: element emitted, then UnexpectedEOF at offset 16 with the id and no size (never a normal end)",
-    "first and last of the 14 payload bytes symbolic; capacity 16; slice source", timeout_s=2400, mem_gb=20, stubs=IO_HASH, big_stack=True, assumes=DOC_A)
+# cut_b14_then_one_byte (a 16-byte element exactly filling a capacity-16 buffer, then one dangling byte) is NOT registered:
+# it finds the seeded bugs C04-s1/C12-s2 in ~18 min, but on the correct tree the solver fails beyond 32 GB.
 
 # ---------------------------------------------------------------- validator with unknown-size masters (direct call)
 VT = [("c11_vtree_root_u", "[Root?]"), ("c11_vtree_root_a_ku", "[Root, A?]"), ("c11_vtree_root_a_uk", "[Root?, A]"), ("c11_vtree_root_a_uu", "[Root?, A?]"),
@@ -250,5 +250,6 @@ for n, ch in (("hdr_contain_kk", "[Root, A] both known-size"), ("hdr_contain_ku"
 add("c10_raw_unknown_in_known", ["C10"], "wr.rs", "U", "write_raw under [Root known-size, A unknown-size]: destination untouched, element buffered", "2 symbolic payload bytes, 3 symbolic buffered bytes", timeout_s=1200, mem_gb=8, stubs=WST,
     assumes=["Inv_w"])
 add("c10_raw_unknown_only", ["C10"], "wr.rs", "U", "write_raw under one unknown-size master: element handed over completely, buffer empty", "2 symbolic payload bytes", timeout_s=1200, mem_gb=8, stubs=WST, assumes=["Inv_w"])
-add("c10_flush_closes_empty_master", ["C10", "C09"], "wr.rs", "U", "flush() with an opened-but-empty known-size master (at top level or under an unknown-size master) and an empty buffer: master closed, its 2-byte header delivered, nothing buffered",
-    "both nestings (symbolic choice)", timeout_s=1800, mem_gb=12, stubs=WST, assumes=["Inv_w"])
+# c10_flush_closes_empty_{root,inner} (public flush() closing an opened-but-empty known-size master) are NOT registered:
+# the seeded bug C10-s2 is found in ~4 min, but on the correct tree the proof runs out of memory (flush() loops over
+# end_tag, whose nine splice arms are unrolled per iteration) - a check that cannot pass is not a check.
